@@ -613,7 +613,15 @@ def r4_8(ctx):
     tags = [c for c in walk_local(f.node) if isinstance(c, ast.Call) and norm(c.func) in ("_Tag", "Tag") and len(c.args) >= 2]
     ctx.floor(len(tags), 1, "Tag constructions in _parse")
     for c in tags:
-        seen, work, bad, unknown = set(), [c.args[1]], [], []
+        seen, work, bad, unknown, cut = set(), [c.args[1]], [], [], []
+        # a starred unpack target (`name, *rest = ..`) binds pieces of its right-hand side too
+        for x in walk_local(f.node):
+            if isinstance(x, ast.Assign) and isinstance(x.targets[0], ast.Tuple):
+                for e_ in x.targets[0].elts:
+                    if isinstance(e_, ast.Starred) and isinstance(e_.value, ast.Name):
+                        part.setdefault(e_.value.id, x.value)
+                    elif isinstance(e_, ast.Name):
+                        part.setdefault(e_.id, x.value)
         while work:
             e = work.pop()
             for n_ in ast.walk(e):
@@ -627,12 +635,16 @@ def r4_8(ctx):
                     if isinstance(n_.func, ast.Attribute):
                         if n_.func.attr in FOLD:
                             bad.append(n_)
+                        elif n_.func.attr in ("split", "rsplit") and n_.args and len(n_.args) < 2 and not n_.keywords:
+                            cut.append(n_)  # every separator splits: a piece ends at the NEXT separator, the rest is lost
                         elif n_.func.attr not in SPLIT:
                             unknown.append(n_)
                     elif norm(n_.func) not in ("len", "_Tag", "Tag"):
                         unknown.append(n_)
         where = f"{m.relpath}:{c.lineno}"
-        if bad:
+        if cut:
+            ctx.violation(f.fq, short(c), where, f"the tag's parameter is a piece of `{short(cut[0])}`, which splits at EVERY separator: a parameter that contains the separator itself ([link=https://example.org/?q=rich]) is cut at its second occurrence - use partition() or split(sep, 1)")
+        elif bad:
             ctx.violation(f.fq, short(c), where, f"the tag's parameter is derived through `{short(bad[0])}`: the parameter text is altered before it is stored - [link=https://Example.org/Page?Q=1] becomes a link to https://example.org/page?q=1")
         elif unknown:
             raise AnalysisError(f"markup._parse: the tag's parameter passes through `{short(unknown[0])}`; not decided")
